@@ -89,7 +89,7 @@ func TestTqvWitness(t *testing.T) {
 	out := map[string]interface{}{
 		"obligation": "cmds/server/loader.prefixFilter/bounded.cidr",
 		"scenario":   "prefix lists of size 0..2 over six IPv4/IPv6 prefixes x boundary addresses (4-byte, v4-mapped, v6, non-TCP) against a net/netip oracle",
-		"cases": n, "mismatches": bad, "violated": len(bad) > 0 || n < 500,
+		"cases":      n, "mismatches": bad, "violated": len(bad) > 0 || n < 500,
 	}
 	b, _ := json.Marshal(out)
 	fmt.Println("TQV-WITNESS " + string(b))
